@@ -84,6 +84,13 @@ NCmpRef(x, y, n) == CmpRef(Take(x, n), Take(y, n))
 \*    compares a 6-byte buffer with 5 bytes and expects EQUAL); I: a buffer shorter than n is NOT read past its
 \*    length, it is a proper prefix at best, hence smaller.
 CmpPtrRef(x, p) == CmpRef(Take(x, Len(p)), p)
+\* E (Conv_CmpWithPtrCountBeyondLength): the statement does not say how a count LARGER than the buffer's length is to be
+\*    read when the buffer equals the first len bytes at the pointer.  Two conventions are defensible: the buffer is a proper
+\*    prefix (LESS), or only the bytes the buffer has are compared (EQUAL) - the latter is established by the repository's own
+\*    test "spif_mbuff_sprintf() function" (test/test.c: cmp_with_ptr(<"E", len 1>, "E\0", 2) must be EQUAL).  For exactly
+\*    this argument class the return value is either EQUAL or LESS (never GREATER: checked by the harness and by
+\*    MBuffObjTrace); every other case of cmp_with_ptr / ncmp_with_ptr is strict.  The value is never changed (strict).
+CountBeyondLength(x, p, n) == n > Len(x) /\ n <= Len(p) /\ SubSeq(p, 1, Len(x)) = x
 
 \* S/C: splice(idx, cnt, o): idx normalised must address an existing byte (0..len-1), 0 <= cnt <= len-idx.
 \* E: a negative cnt has two defensible readings (as built: idx+len+cnt; substr convention: len-idx+cnt);
@@ -197,9 +204,10 @@ OpRindex(c) == /\ al /\ QueryA("rindex", <<c>>, LastPos(a, c))
 OpFind(src) == /\ HasOther(src) /\ QueryA("find", <<src>>, FindRef(a, Other(src)))
 OpFindFromPtr(t) == /\ al /\ QueryA("find_from_ptr", <<t>>, FindRef(a, t))
 OpCmp(src)  == /\ HasOther(src) /\ QueryA("cmp", <<src>>, CmpRef(a, Other(src)))
-OpCmpWithPtr(t) == /\ al /\ QueryA("cmp_with_ptr", <<t>>, CmpPtrRef(a, t))
+OpCmpWithPtr(t) == /\ al /\ StepA("cmp_with_ptr", <<t>>, CmpPtrRef(a, t), CountBeyondLength(a, t, Len(t)), a, al)
 OpNcmp(src, n) == /\ HasOther(src) /\ n >= 0 /\ QueryA("ncmp", <<src, n>>, NCmpRef(a, Other(src), n))
-OpNcmpWithPtr(t, n) == /\ al /\ n >= 0 /\ n <= Len(t) /\ QueryA("ncmp_with_ptr", <<t, n>>, NCmpRef(a, t, n))
+OpNcmpWithPtr(t, n) == /\ al /\ n >= 0 /\ n <= Len(t)
+                       /\ StepA("ncmp_with_ptr", <<t, n>>, NCmpRef(a, t, n), CountBeyondLength(a, t, n), a, al)
 OpSubbuffToPtr(i, c) == /\ al /\ QueryA("subbuff_to_ptr", <<i, c>>, SubRef(a, i, c))
 \* subbuff creates a NEW object (here: in the free slot B); refused -> no object
 OpSubbuff(i, c) ==
@@ -314,6 +322,11 @@ CmpLaw ==
               /\ NCmpRef(x, y, n) = 0 - NCmpRef(y, x, n)
               /\ (NCmpRef(x, y, n) = 0) <=> (Take(x, n) = Take(y, n))
          /\ CmpPtrRef(x, y) = NCmpRef(x, y, Len(y))
+         \* Conv_CmpWithPtrCountBeyondLength: in the E class the two readings are LESS / EQUAL; outside it they coincide
+         /\ \A n \in NCnt : (n >= 0 /\ n <= Len(y)) =>
+              LET clamp == CmpRef(Take(x, MinI(n, Len(x))), Take(y, MinI(n, Len(x)))) IN
+              IF CountBeyondLength(x, y, n) THEN NCmpRef(x, y, n) = 0 - 1 /\ clamp = 0
+              ELSE clamp = NCmpRef(x, y, n)
     /\ \A x \in U, y \in U :                                         \* transitive (through the object under test)
          (CmpRef(a, x) <= 0 /\ CmpRef(x, y) <= 0) => CmpRef(a, y) <= 0
 
